@@ -435,7 +435,7 @@ func (a *API) WalkOp(name string, nReplies int) ([]OpPath, *Walker, error) {
 	}
 	// in-module unexported predicates are named structurally, never by identifier
 	w.CallName = func(callee *ssa.Function, name string) (string, bool, bool) {
-		if callee != nil && callee.Pkg != nil && callee.Pkg == a.P.SSAPkg("uhppote") && callee.Object() != nil && !callee.Object().Exported() {
+		if callee != nil && fnPkg(callee) != nil && fnPkg(callee) == a.P.SSAPkg("uhppote") && callee.Object() != nil && !callee.Object().Exported() {
 			if callee.Signature.Results().Len() == 1 && isBoolType(callee.Signature.Results().At(0).Type()) && !simplePredicate(callee) {
 				return "pred", true, true
 			}
